@@ -76,3 +76,97 @@ theorem exec_evalSelect_rows (n : Nat) (env : Env) (es : List (Expr × String)) 
       rfl
 
 end Ledger.Sql
+
+/-! ### `IN` over text values -/
+
+namespace Ledger.Sql
+
+theorem compareValues_text (x y : String) : compareValues (.text x) (.text y) = .ok (some (cmpStr x y)) := by
+  simp [compareValues, compareScalar]; rfl
+
+theorem inValuesAux_text (x : String) : ∀ (ys : List String) (sn : Bool),
+    inValuesAux (.text x) (ys.map Value.text) sn = .ok (if ys.contains x then some true else (if sn then none else some false)) := by
+  intro ys
+  induction ys with
+  | nil => intro sn; rfl
+  | cons y ys ih =>
+    intro sn
+    simp only [List.map_cons, inValuesAux, compareValues_text, bind, Except.bind]
+    by_cases h : x = y
+    · subst h
+      have : cmpStr x x = Ordering.eq := by simp [cmpStr]
+      simp [this, pure, Except.pure]
+    · have hne : cmpStr x y ≠ Ordering.eq := by
+        intro e
+        have := cmpStr_eq' x y
+        rw [e] at this
+        simp at this
+        exact h this
+      have hc : (y :: ys).contains x = ys.contains x := by
+        simp [h]
+      rw [hc]
+      cases hcm : cmpStr x y with
+      | eq => exact absurd hcm hne
+      | lt => exact ih sn
+      | gt => exact ih sn
+
+theorem inValues_text (x : String) (ys : List String) :
+    inValues (.text x) (ys.map Value.text) = .ok (some (ys.contains x)) := by
+  unfold inValues
+  rw [inValuesAux_text]
+  cases ys.contains x <;> rfl
+
+end Ledger.Sql
+
+/-! ### the last component of `<bucket>.<table>` -/
+
+namespace Ledger.Sql
+
+theorem splitOnChar_ne_nil (sep : Char) : ∀ (cs cur : List Char), splitOnChar sep cs cur ≠ [] := by
+  intro cs
+  induction cs with
+  | nil => intro cur; simp [splitOnChar]
+  | cons c cs ih =>
+    intro cur
+    simp only [splitOnChar]
+    split
+    · simp
+    · exact ih _
+
+/-- the last component of `xs ++ "." ++ tail` when `tail` has no dot -/
+theorem getLast_splitOnChar_append (tail : List Char) (ht : ∀ c ∈ tail, (c == '.') = false) :
+    ∀ (xs cur : List Char), (splitOnChar '.' (xs ++ '.' :: tail) cur).getLast? = some tail := by
+  have htail : ∀ (t cur : List Char), (∀ c ∈ t, (c == '.') = false) → splitOnChar '.' t cur = [cur.reverse ++ t] := by
+    intro t
+    induction t with
+    | nil => intro cur _; simp [splitOnChar]
+    | cons c cs ih =>
+      intro cur h
+      have hc := h c (by simp)
+      simp only [splitOnChar, hc, Bool.false_eq_true, if_false]
+      rw [ih _ (fun x hx => h x (by simp [hx]))]
+      simp
+  intro xs
+  induction xs with
+  | nil =>
+    intro cur
+    simp only [List.nil_append, splitOnChar, show (('.' : Char) == '.') = true from rfl, if_true]
+    rw [htail tail [] ht]
+    simp
+  | cons x xs ih =>
+    intro cur
+    simp only [List.cons_append, splitOnChar]
+    split
+    · rw [List.getLast?_cons_of_ne_nil]
+      · exact ih []
+      · exact splitOnChar_ne_nil _ _ _
+    · exact ih _
+
+theorem lastComponent_dot_accounts (b : String) : lastComponent (b ++ "." ++ "accounts") = "accounts" := by
+  unfold lastComponent lastDotted
+  have : (b ++ "." ++ "accounts").toList = b.toList ++ '.' :: "accounts".toList := by
+    simp [String.toList_append]
+  rw [this, getLast_splitOnChar_append "accounts".toList (by decide) b.toList []]
+  rfl
+
+end Ledger.Sql
